@@ -215,8 +215,6 @@ def handleCore (op : String) (args : List String) : Option String :=
   | "endsprefix", rest =>
     (parseArgE rest).map fun e =>
       showBool (expressionEndsWithPrefix (fun k => [0, 1, 2, 6, 7, 8].contains (k % 13)) e)
-  | "h3", rest =>
-    (parseArgE rest).map fun e => showBool (H3 (fun k => [0, 1, 2, 6, 7, 8].contains (k % 13)) e)
   | "brk", [a, b] =>
     match a.toNat?, b.toNat? with
     | some a, some b => some (showBool (shouldBreakWithSpace a b))
